@@ -258,7 +258,40 @@ pub(crate) enum Item<V> {
         key: u64,
         conflict: u64,
     },
-    Wait(WaitGroup),
+    Wait(WaitSignal),
+}
+
+/// Carries the wait group of a `wait()` call through the insert buffer.  The waiter is released
+/// when the guard goes away, however that happens: `complete()` after the processor (or the
+/// cleaner of a concurrent `clear()`) has dealt with everything queued before it, or a plain drop
+/// when the item is discarded because the processor has stopped.  Only `complete()` marks the
+/// barrier as honoured.
+pub(crate) struct WaitSignal {
+    wg: WaitGroup,
+    honoured: Arc<AtomicBool>,
+}
+
+impl WaitSignal {
+    fn new(wg: WaitGroup) -> (Self, Arc<AtomicBool>) {
+        let honoured = Arc::new(AtomicBool::new(false));
+        (
+            Self {
+                wg,
+                honoured: honoured.clone(),
+            },
+            honoured,
+        )
+    }
+
+    pub(crate) fn complete(self) {
+        self.honoured.store(true, Ordering::SeqCst);
+    }
+}
+
+impl Drop for WaitSignal {
+    fn drop(&mut self) {
+        self.wg.done();
+    }
 }
 
 impl<V> Item<V> {
@@ -492,11 +525,19 @@ where
         }
 
         let wg = WaitGroup::new();
-        let wait_item = Item::Wait(wg.add(1));
+        let (signal, honoured) = WaitSignal::new(wg.add(1));
         self.insert_buf_tx
-            .try_send(wait_item)
-            .map(|_| wg.wait())
-            .map_err(|e| CacheError::SendError(format!("cache set buf sender: {}", e)))
+            .try_send(Item::Wait(signal))
+            .map_err(|e| CacheError::SendError(format!("cache set buf sender: {}", e)))?;
+        wg.wait();
+        if honoured.load(Ordering::SeqCst) {
+            Ok(())
+        } else {
+            // the processor stopped before it reached the item
+            Err(CacheError::SendError(
+                "cache set buf sender: the cache is being closed".to_string(),
+            ))
+        }
     }
 
     /// remove an entry from Cache by key.
